@@ -1304,6 +1304,9 @@ def get_signals(signal_array, frame, ea, multiplex_id, float_factory, bit_offset
                 if l4 is not None:
                     signal_unit = l4.text
 
+        if signal_unit is None:
+            signal_unit = ""  # an empty DISPLAY-NAME / L-4 element has no text; Signal.unit is a string
+
         init_list = ea.selector(system_signal, ">INIT-VALUE-REF/VALUE")
 
         if len(init_list) == 0:
